@@ -263,7 +263,7 @@ def parse_harness(out):
             continue
         tok = ln.split()
         if tok[0] == "case":
-            cur = dict(prims=[], probes=None, error=None)
+            cur = dict(prims=[], probes=None, error=None, vols={})
             res[tok[1]] = cur
         elif tok[0] == "endcase":
             cur = None
@@ -285,6 +285,9 @@ def parse_harness(out):
                 i += 1
                 bb[t[0]] = None if t[1] == "null" else [float.fromhex(x) if "inf" not in x else float(x) for x in t[1:7]]
             cur["prims"].append(dict(kind=tok[1], surfs=surfs, bb=bb))
+        elif tok[0] == "vol":
+            bb = None if tok[3] == "null" else [float.fromhex(x) if "inf" not in x else float(x) for x in tok[3:9]]
+            cur["vols"][(tok[1], tok[2])] = bb
         elif tok[0] == "probes":
             n = int(tok[1])
             pr = []
@@ -472,6 +475,7 @@ def run(ctx):
                          "; ".join("V3 %s %s %s" % tuple(hexf(x) for x in q) for q in pts)))
     bvals = ctx.coq_eval("bbox", PRE, bexprs, chunk=max(20, len(bexprs) // 4 + 1))
     nbz = 0
+    bz_seen = set()
     for p, hv, pts, vals in zip(prims, hp["prims"], bpts, bvals):
         ext, inn = hv["bb"].get("bbox_ext"), hv["bb"].get("bbox_int")
         for q, (idef, ibuilt, clear) in zip(pts, vals):
@@ -485,14 +489,27 @@ def run(ctx):
                 bad = "point outside the solid lies inside the interior bounding box declared by build()"
             if bad:
                 nbz += 1
-                sig = "parallelepiped-exterior-bbox-too-small" if (p["k"] == "ppiped" and "exterior" in bad
-                                                                   and (p["p"][3] != 0 or p["p"][4] != 0)) else None
-                if nbz <= 3 or sig:
-                    ctx.violation("bounding-zone", "%s: %s" % (p["k"], bad),
-                                  {"primitive": G.prim_text(p), "point": q, "bbox_ext": ext, "bbox_int": inn,
-                                   "inside_by_definition": idef, "inside_by_built_surfaces": ibuilt,
-                                   "harness_input": "case b\nprim %s\nendcase\n" % G.prim_text(p)},
-                                  signature=sig)
+                which = "exterior" if "exterior" in bad else "interior"
+                key = (p["k"], which)
+                if which == "interior":
+                    # interior boxes only feed the (not yet used) oriented bounding zones and
+                    # can only turn an exterior box into "unknown" (= infinite): no effect on
+                    # which volume a point is assigned to, so NOT a violation of C09:
+                    # recorded as an observation (NOTES.md, "sub-mechanism defects")
+                    ctx.count("observation:interior-bbox-not-inside-solid:" + p["k"])
+                    if key not in bz_seen:
+                        bz_seen.add(key)
+                        ctx.notes.append("observation (no effect on point location): interior bbox declared by %s::build is not "
+                                         "inside the solid: `prim %s`, point %r, bbox_int %r" % (p["k"], G.prim_text(p), q, inn))
+                else:
+                    sig = "parallelepiped-exterior-bbox-too-small" if (p["k"] == "ppiped" and (p["p"][3] != 0 or p["p"][4] != 0)) else None
+                    if key not in bz_seen:
+                        bz_seen.add(key)
+                        ctx.violation("bounding-zone", "%s: %s" % (p["k"], bad),
+                                      {"primitive": G.prim_text(p), "point": q, "bbox_ext": ext, "bbox_int": inn,
+                                       "inside_by_definition": idef, "inside_by_built_surfaces": ibuilt,
+                                       "harness_input": "case b\nprim %s\nendcase\n" % G.prim_text(p)},
+                                      signature=sig)
                 break
     ctx.count("bbox-violations", nbz)
     ctx.log("bounding zones checked")
@@ -538,7 +555,7 @@ def run(ctx):
             if okd:
                 continue
             kinds = sorted(set(kinds_in_unit(levels[-1][4])))
-            sig = finding_signature(levels, p, acc_def, acc_built, got)
+            sig = finding_signature(levels, p, acc_def, acc_built, got, h["vols"])
             if sig in seen_sig and sig is not None:
                 continue
             seen_sig.add(sig)
@@ -601,7 +618,7 @@ def classify_error(err):
     return None
 
 
-def finding_signature(levels, p, acc_def, acc_built, got):
+def finding_signature(levels, p, acc_def, acc_built, got, vols=None):
     """name of a KNOWN defect class (matched against known_findings.json), or None.
 
     Deliberately narrow: the point, pulled back into the local frame of a
@@ -643,7 +660,52 @@ def finding_signature(levels, p, acc_def, acc_built, got):
                 return "parallelepiped-exterior-bbox-too-small"
         elif abs(y1) < hy and al != 0 and acc_def != acc_built:
             return "parallelepiped-y-halfwidth-scaled-by-cos-alpha"
+    # interior boxes that are not inside the solid (sphere: SurfaceClipper sqrt_three/2; prism: square of
+    # half-width apothem): the point is outside such a primitive but inside its declared interior box
+    if acc_def == acc_built:
+        for _, tr, pr in pl:
+            if not pr:
+                continue
+            x, y, z = G.tf_inv_apply(tr, q)
+            if pr["k"] == "sphere":
+                rr = pr["p"][0]
+                h = rr * math.sqrt(3.0) / 2
+                if x * x + y * y + z * z > rr * rr and max(abs(x), abs(y), abs(z)) <= h:
+                    return "sphere-interior-bbox-not-inscribed"
+            if pr["k"] == "prism":
+                a_, hh, o = pr["p"]
+                n = pr["n"]
+                inpoly = all(x * math.cos(2 * math.pi * (k + o) / n - math.pi / 2)
+                             + y * math.sin(2 * math.pi * (k + o) / n - math.pi / 2) <= a_ for k in range(n))
+                if (not inpoly) and max(abs(x), abs(y)) <= a_ and abs(z) <= hh:
+                    return "prism-interior-bbox-not-inscribed"
+    # BoundingZone.cc: calc_difference(a, b, shrink) returns the SUBTRAHEND b when a encloses b (and
+    # calc_union's `A | ~B` branch has its operands swapped): the "interior" of A - B then covers B, and a
+    # later subtraction / union makes the exterior box of a non-empty volume null or too small.
+    # Criterion: the point is in exactly one material by definition, lies OUTSIDE that volume's declared
+    # bbox, and the material's object has a negation nested under a negation or under a union.
+    if vols and acc_def == acc_built and len(acc_def) == 1:
+        lab = next(iter(acc_def))
+        bb = vols.get((u["label"], lab))
+        objs = [o for l_, o in u["materials_resolved"] if l_ == lab]
+        if bb is not None and objs and not all(bb[i] <= q[i] <= bb[3 + i] for i in range(3)):
+            if nested_difference(objs[0]):
+                return "boundingzone-shrink-difference-returns-subtrahend"
     return None
+
+
+def nested_difference(o, under=False):
+    """a `neg` below another `neg` or below an `any`"""
+    k = o[0]
+    if k == "neg":
+        return under or nested_difference(o[1], True)
+    if k == "any":
+        return any(nested_difference(x, True) for x in o[1])
+    if k == "all":
+        return any(nested_difference(x, under) for x in o[1])
+    if k == "trans":
+        return nested_difference(o[2], under)
+    return False
 
 
 def minimal_text(t, p):
@@ -668,6 +730,30 @@ def corpus_trees():
     pp = dict(k="ppiped", p=[1.0, 2.0, 3.0, 0.1, 0.0, 0.0], bb=[2.5, 2.0, 3.0])
     u = new_unit("u0", ("def", "bnd", box(10.0)), "media", [], [("u0.m0", ("prim", pp))], True)
     out.append((u, [[1.3, 1.8, 0.0], [-1.3, -1.8, 1.0], [0.0, 0.0, 0.0], [1.2, 1.5, 0.0]]))
+    # F3: SurfaceClipper gives a sphere the "interior" cube of half-width (sqrt3/2) r (should be r/sqrt3):
+    # (box - sphere) gets a null exterior box, and in a union the whole piece drops out of the volume's bbox
+    far = ("trans", (G.IDM, [5.0, 0.0, 0.0], "tl"), ("prim", dict(k="box", p=[0.5, 0.5, 0.5], bb=[0.5] * 3)))
+    piece = ("all", [("prim", dict(k="box", p=[0.8, 0.8, 0.8], bb=[0.8] * 3)),
+                     ("neg", ("prim", dict(k="sphere", p=[1.0], bb=[1.0] * 3)))])
+    u = new_unit("u0", ("def", "bnd", box(10.0)), "media", [], [("u0.m0", ("any", [piece, far]))], True)
+    out.append((u, [[0.75, 0.75, 0.75], [5.0, 0.0, 0.0], [0.0, 0.0, 0.0], [-0.7, 0.72, -0.75]]))
+    # F4: Prism::build declares the square [-a,a]^2 as interior box
+    piece = ("all", [("prim", dict(k="box", p=[0.95, 0.95, 0.5], bb=[0.95, 0.95, 0.5])),
+                     ("neg", ("prim", dict(k="prism", n=5, p=[1.0, 2.0, 0.0], bb=[1.3, 1.3, 2.0])))])
+    u = new_unit("u0", ("def", "bnd", box(10.0)), "media", [], [("u0.m0", ("any", [piece, far]))], True)
+    out.append((u, [[0.93, 0.93, 0.0], [5.0, 0.0, 0.0], [0.0, 0.0, 0.0], [-0.93, 0.93, 0.2]]))
+    # F5: BoundingZone.cc calc_difference(a, b, shrink) returns b when a encloses b: pure boxes
+    bigminus = ("all", [("prim", dict(k="box", p=[9.0, 9.0, 9.0], bb=[9.0] * 3)),
+                        ("neg", ("prim", dict(k="box", p=[1.0, 1.0, 1.0], bb=[1.0] * 3)))])
+    piece = ("all", [("prim", dict(k="box", p=[0.9, 0.9, 0.9], bb=[0.9] * 3)), ("neg", bigminus)])
+    u = new_unit("u0", ("def", "bnd", box(10.0)), "media", [], [("u0.m0", ("any", [piece, far]))], True)
+    out.append((u, [[0.0, 0.0, 0.0], [5.0, 0.0, 0.0], [0.5, -0.5, 0.8], [3.0, 3.0, 3.0]]))
+    # F5': the `A | ~B` branch of calc_union
+    piece = ("all", [("prim", dict(k="box", p=[0.5, 0.5, 0.5], bb=[0.5] * 3)),
+                     ("any", [("prim", dict(k="box", p=[9.0, 9.0, 9.0], bb=[9.0] * 3)),
+                              ("neg", ("prim", dict(k="sphere", p=[1.0], bb=[1.0] * 3)))])])
+    u = new_unit("u0", ("def", "bnd", box(10.0)), "media", [], [("u0.m0", ("any", [piece, far]))], True)
+    out.append((u, [[0.0, 0.0, 0.0], [5.0, 0.0, 0.0], [0.7, 0.0, 0.0]]))
     return out
 
 
